@@ -17,7 +17,8 @@ Emit(r) == PrintT("@@" \o ToJson(r))
 
 Muts == [t : {"put"}, k : Keys, v : Vals] \cup [t : {"del"}, k : Keys]
         \cup [t : {"app"}, k : Keys, c : Children] \cup [t : {"rem"}, k : Keys, c : Children]
-        \cup [t : {"imp"}, k : Keys, v : Vals, c : Children] \cup [t : {"rmk"}, k : Keys]
+        \cup [t : {"imp"}, k : Keys, v : Vals \cup {""}, c : Children \cup {""}] \cup [t : {"rmk"}, k : Keys]
+        \* imp: Import of one key; v = "" an empty simple value (it overwrites the stored one), c = "" no children in the transfer
 EmptySt == [s |-> [k \in Keys |-> ""], ch |-> [k \in Keys |-> {}]]
 (* apply returns <<new state, accepted>>; only a duplicate PrefixAppend is rejected *)
 Apply(m, st) ==
@@ -25,7 +26,7 @@ Apply(m, st) ==
     [] m.t = "del" -> <<[st EXCEPT !.s[m.k] = ""], TRUE>>
     [] m.t = "app" -> IF m.c \in st.ch[m.k] THEN <<st, FALSE>> ELSE <<[st EXCEPT !.ch[m.k] = @ \cup {m.c}], TRUE>>
     [] m.t = "rem" -> <<[st EXCEPT !.ch[m.k] = @ \ {m.c}], TRUE>>
-    [] m.t = "imp" -> <<[st EXCEPT !.s[m.k] = m.v, !.ch[m.k] = @ \cup {m.c}], TRUE>>      \* simple overwritten, children merged
+    [] m.t = "imp" -> <<[st EXCEPT !.s[m.k] = m.v, !.ch[m.k] = @ \cup (IF m.c = "" THEN {} ELSE {m.c})], TRUE>>      \* simple overwritten (also by an empty value), children merged
     [] m.t = "rmk" -> <<[st EXCEPT !.s[m.k] = "", !.ch[m.k] = {}], TRUE>>
 RECURSIVE Fold(_, _)
 Fold(seq, st) == IF seq = <<>> THEN st ELSE Fold(Tail(seq), Apply(seq[1], st)[1])
